@@ -512,6 +512,11 @@ fn parent_once<W: World>(tier: Tier, plan: &Plan, extra: &Extra) -> Option<i32> 
     cov.insert("simulated_runs".into(), json!(m.done));
     cov.insert("runs_per_hour".into(), json!((m.done as f64 / wall.max(1e-9) * 3600.0) as u64));
     cov.insert("determinism_selftest".into(), json!({"runs_repeated_in_other_process_and_worker_count": selftested, "divergent": divergent}));
+    // this code reads no clock: logical time is what the simulator stepped through
+    let lt: BTreeMap<&String, &u64> = m.counters.iter().filter(|(k, _)| {
+        ["scheduler_steps", "sweep_events_processed", "library_calls_in_simulation", "operations", "comparator_calls", "keys_inserted", "boolean_input_edges", "calls_reference", "calls_variant"].contains(&k.as_str())
+    }).collect();
+    cov.insert("logical_time_covered".into(), json!(lt));
     cov.insert("counters".into(), json!(m.counters));
     cov.insert("distinct_secondary_measure".into(), json!(m.distinct2.len()));
     cov.insert("sim_heap".into(), json!(m.heap));
